@@ -90,6 +90,9 @@ type Sched struct {
 	// VisibleClass says whether lock operations of a class are scheduling points at all.
 	VisibleClass [3]bool
 	MaxPoints    int
+	// IdleHook is called when no thread is enabled; it returns true if it made time pass
+	// (fired a timer), in which case enabledness is re-evaluated instead of reporting a deadlock.
+	IdleHook     func() bool
 	epoch        uint64
 	setupCtr     int
 	Switches     int // context switches that happened inside an operation (evidence)
@@ -164,6 +167,19 @@ func (s *Sched) schedule(me *Thread, label string) {
 	for _, t := range s.threads {
 		if t != me && s.enabled(t) {
 			en = append(en, t)
+		}
+	}
+	for len(en) == 0 && !s.allDone() && s.IdleHook != nil && s.IdleHook() {
+		// nobody can run: (virtual) time passes until the next timer fires, which may
+		// enable somebody
+		if me.ID >= 0 && s.enabled(me) {
+			en = append(en, me)
+			meEnabled = true
+		}
+		for _, t := range s.threads {
+			if t != me && s.enabled(t) {
+				en = append(en, t)
+			}
 		}
 	}
 	if len(en) == 0 {
